@@ -35,6 +35,7 @@ REQUIRED_EVENTS = {'interrupt-ltr-first': 5, 'interrupt-ltr-middle': 5,
 ASSUMPTIONS = ['determinism of cross: a faulty run coincides with the '
     'reference run up to the interruption (checked, not assumed: prefix rule)',
     'objective = dense table lookup']
+COVER = ['cross.cross', 'cross._func', 'cross._func_eval', 'cross._iter', 'utils._info_appr']
 SHARDS = {'quick': 14, 'thorough': 16}
 EXHAUSTIVE = False
 STOPS = {'nswp', 'm', 'e', 'e_vld', 'cb', 'func', 'conv'}
